@@ -24,7 +24,11 @@ SOURCES = ["mls-rs-crypto-openssl/src/lib.rs", "mls-rs-crypto-awslc/src/lib.rs",
 # the fixed, enumerated variants of one and the same recorded divergence.
 KNOWN_CLASSES = {
     "F18": ["mac/empty-key/accepted-by:awslc+rustcrypto", "mac/empty-key/accepted-by:awslc", "mac/empty-key/accepted-by:rustcrypto"],
-    "F19": ["sign-malformed-key/long/accepted-by:openssl", "sign-malformed-key/short/accepted-by:openssl", "sign-malformed-key/zeros/accepted-by:awslc+openssl"],
+    # (the keys come from the providers' own random generators: whether AWS-LC takes a key with one byte appended or removed as
+    # well depends on the key — a P-521 scalar below order/256 stays in range when a zero byte is appended, about one key in 256 —
+    # so the recorded divergence shows up with either set of accepting providers; RustCrypto rejects in every variant)
+    "F19": ["sign-malformed-key/long/accepted-by:openssl", "sign-malformed-key/short/accepted-by:openssl", "sign-malformed-key/zeros/accepted-by:awslc+openssl",
+            "sign-malformed-key/long/accepted-by:awslc+openssl", "sign-malformed-key/short/accepted-by:awslc+openssl", "sign-malformed-key/zeros/accepted-by:openssl"],
     "F20": ["x509/notAfter-boundary", "notAfter-boundary"],
     "F21": ["x509/anchor-pathlen", "anchor-pathlen"],
     "F22": ["x509/reordered-accepted", "reordered-accepted"],
